@@ -14,6 +14,8 @@ import (
 	"encoding/json"
 	"fmt"
 	"net/http"
+	"os"
+	"path/filepath"
 	"reflect"
 	"regexp"
 	"strings"
@@ -38,7 +40,7 @@ type Kind struct {
 }
 
 var kinds = []string{"http/uri", "http/uri+noconfheaders", "http/uri+preload", "http/uripost", "http/raw", "http/jsonline", "http/jsonline+preload+shared-client", "connect/uri",
-	"http/scenario", "http/scenario+rand", "http/scenario+failing-steps+phout", "grpc/json", "grpc/json+shared-client", "grpc/scenario", "grpc/scenario+failing-steps+phout", "mock/ownership", "http/uri+phout+composite", "schedule/first-use", "http/uri+datemw", "http/uri+dnscache"}
+	"http/scenario", "http/scenario+rand", "http/scenario+failing-steps+phout", "grpc/json", "grpc/json+shared-client", "grpc/scenario", "grpc/scenario+failing-steps+phout", "grpc/json+answlog+two-pools", "grpc/scenario+answlog+two-pools", "mock/ownership", "http/uri+phout+composite", "schedule/first-use", "http/uri+datemw", "http/uri+dnscache"}
 
 func skipType(t reflect.Type) bool {
 	switch t.Name() {
@@ -489,7 +491,28 @@ scenarios:
 		gresult = map[string]any{"type": "phout", "destination": pp, "id": true}
 	}
 	pool := poolMap(ammo, gun, gresult, k.Instances, k.Ms)
-	ec, err := vkit.DecodePools(map[string]any{"pools": []any{pool}})
+	pools := []any{pool}
+	if strings.Contains(k.Name, "answlog+two-pools") {
+		// two independent pools of guns that each keep an answer log of their own: the guns of one
+		// pool are created (warm-up gun, then one per instance) while those of the other are too
+		for i, id := range []string{"p", "q"} {
+			lp := filepath.Join(vkit.TmpDir(), fmt.Sprintf("c11-answ-%d-%s.log", time.Now().UnixNano(), id))
+			defer os.Remove(lp)
+			g := map[string]any{}
+			for kk, vv := range gun {
+				g[kk] = vv
+			}
+			g["answlog"] = map[string]any{"enabled": true, "path": lp, "filter": "all"}
+			pm := poolMap(ammo, g, gresult, k.Instances, k.Ms)
+			pm["id"] = id
+			if i == 0 {
+				pools = []any{pm}
+			} else {
+				pools = append(pools, pm)
+			}
+		}
+	}
+	ec, err := vkit.DecodePools(map[string]any{"pools": pools})
 	if err != nil {
 		res.Inconclusive(true, "%s: config rejected: %v", k.Name, err)
 		return
